@@ -262,11 +262,12 @@ class Ctx:
         for i, l in enumerate(lines):
             if re.match(start_re, l):
                 start = i
-        seq = [l[:300] for l in lines[start:]][-max_lines:]
+        body = [l[:300] for l in lines[start:]]
+        seq = body if len(body) <= max_lines else body[:3] + ["…"] + body[-(max_lines - 4):]
         self.failing.append({"stage": label, "seed": self.seed, "cmd": "VERIF_UNBUFFERED=1 " + " ".join(harness_cmd),
                              "what": f"ORACLE {self.prop} the real code died (exit status {r.returncode}) while executing the last record of this "
                                      f"sequence: " + " ; ".join(seq),
-                             "stderr": r.stderr.decode(errors="replace")[-600:]})
+                             "stderr": "\n".join([l for l in r.stderr.decode(errors="replace").splitlines() if ("ERROR" in l or "SUMMARY" in l or "#0 " in l or "#1 " in l or "Assertion" in l or "what()" in l)][:8])})
         return True
 
     # ---------------------------------------------------------------- reporting
